@@ -2,6 +2,7 @@ package checks
 
 import (
 	"fmt"
+	"regexp"
 	"strings"
 
 	"verif/gen"
@@ -116,4 +117,114 @@ func normalizeSentence(s string) string {
 		}
 	}
 	return strings.Join(strings.Fields(sb.String()), " ")
+}
+
+// c05Custom: flag invariance, then the empty-expression lint over the corpora.
+func c05Custom(ctx *RunCtx) error {
+	if err := flagInvariance(ctx); err != nil {
+		return err
+	}
+	return emptyExprLint(ctx)
+}
+
+// forbiddenAdjacent: token pairs that cannot occur in a well-formed Coq term whatever notations are in
+// scope — a binder, separator or keyword that requires an expression is followed by a token that
+// cannot start one (the typical cause: a construct rendered as a comment only, e.g. a logging call,
+// in a position where an expression is required).
+var forbiddenAdjacent = []*regexp.Regexp{
+	regexp.MustCompile(`:= (in\b|\)|\.$|;;|then\b|else\b)`),
+	regexp.MustCompile(`;; (;;|\)|\.$|in\b|then\b|else\b)`),
+	regexp.MustCompile(`\( (;;|in\b|then\b|else\b)`),
+	regexp.MustCompile(`\b(then|else|in) (then\b|else\b|\)|\.$|;;|in\b)`),
+	regexp.MustCompile(`\bif: (then|else)\b`),
+	regexp.MustCompile(`, (\)|;;|in\b|,)`),
+}
+
+// emptyExprLint translates the rule corpora and the random look-alike corpus with the real goose
+// and checks every emitted sentence, with comments removed and string literals masked, against
+// forbiddenAdjacent.
+func emptyExprLint(ctx *RunCtx) error {
+	d, err := tv.NewDriver(RepoRoot)
+	if err != nil {
+		return err
+	}
+	defer d.Close()
+	var pkgs []*tv.Package
+	pkgs = append(pkgs, gen.Subset(0)...)
+	pkgs = append(pkgs, gen.Lookalikes(0)...)
+	pkgs = append(pkgs, gen.RandomLookalikes(1, 150+350*ctx.TierN(), 3)...)
+	if ctx.TierN() > 0 {
+		pkgs = append(pkgs, gen.Random(1, 400, 3)...)
+	}
+	nsent := 0
+	for _, p := range pkgs {
+		if err := d.WritePackage(p); err != nil {
+			return err
+		}
+		tr := d.Translate(p)
+		if tr.V == "" {
+			continue
+		}
+		for _, sent := range splitSentences(tr.V) {
+			nsent++
+			for _, re := range forbiddenAdjacent {
+				if m := re.FindString(sent); m != "" {
+					ctx.addTVViolation(p, nil, "output/no-empty-expression", fmt.Sprintf("%q in sentence %s", m, firstLines(sent, 1)), tr, nil)
+					break
+				}
+			}
+		}
+	}
+	ctx.Extra["lint_sentences"] = nsent
+	ctx.Programs += nsent
+	return nil
+}
+
+// splitSentences removes comments, masks string literals, puts spaces around parentheses and
+// returns the whitespace-normalised sentences (split at a '.' followed by a line break).
+func splitSentences(v string) []string {
+	var sb strings.Builder
+	depth := 0
+	inStr := false
+	for i := 0; i < len(v); i++ {
+		if !inStr && strings.HasPrefix(v[i:], "(*") {
+			depth++
+			i++
+			continue
+		}
+		if !inStr && depth > 0 && strings.HasPrefix(v[i:], "*)") {
+			depth--
+			i++
+			continue
+		}
+		if depth > 0 {
+			continue
+		}
+		if v[i] == '"' {
+			if !inStr {
+				sb.WriteString(" S ")
+			}
+			inStr = !inStr
+			continue
+		}
+		if inStr {
+			continue
+		}
+		switch v[i] {
+		case '(', ')', ',':
+			sb.WriteByte(' ')
+			sb.WriteByte(v[i])
+			sb.WriteByte(' ')
+		default:
+			sb.WriteByte(v[i])
+		}
+	}
+	var out []string
+	for _, s := range strings.Split(sb.String(), ".\n") {
+		s = strings.Join(strings.Fields(s), " ")
+		if s != "" {
+			out = append(out, s+" .")
+		}
+	}
+	return out
 }
